@@ -52,6 +52,7 @@ def plan(tier, seed, want=("tok", "gen", "uses", "mut", "meta", "long"), scale=1
             shards += plan_tok("small", 5, 0, 16)
             shards += plan_tok("small", 6, 0, 64)
             shards += plan_tok("tiny", 6, 0, 32)
+            shards += plan_tok("tiny", 7, 0, 192)
     ngen = int((3000 if tier == "quick" else 60000) * scale)
     if "gen" in want:
         k = 16 if tier == "quick" else 48
